@@ -3,6 +3,7 @@
 A reference semantics written here from docs.md / language_spec.md (operand orders as pinned by the unit tests) is
 evaluated on the same symbolic pre-state as the real instruction; every difference is an obligation."""
 from __future__ import annotations
+import os
 import re
 import z3
 from sx.harness import HarnessSpec, auto_replay, pinned_replay
@@ -797,7 +798,8 @@ def vmstep_same(a, b):
 def doc_table():
     """opcode numbering from docs.md headings: '## OP_NAME - <decimal> - x<hex>'"""
     out = {}
-    for line in open('/repo/docs.md'):
+    from sx.loader import REPO
+    for line in open(os.path.join(REPO, 'docs.md')):
         m = re.match(r'^## (OP_[A-Z0-9_]+) - (\d+) - x([0-9A-Fa-f]{2})\s*$', line)
         if m:
             out[int(m.group(2))] = (m.group(1), int(m.group(3), 16))
